@@ -89,6 +89,24 @@ LEN = {'quick': {'S1': 5, 'S2': 5, 'S3': 5, 'S3b': 5, 'S4': 5, 'S5': 5, 'S7': 5}
 DEV = {'quick': 1, 'thorough': 2}
 
 
+V2_VALUES = {'accept': nt.ValidResult.PASS, 'reject': nt.ValidResult.FAIL, 'PASS': nt.ValidResult.PASS,
+             'FAIL': nt.ValidResult.FAIL, 'TIMEOUT': nt.ValidResult.TIMEOUT, 'SILENCE': nt.ValidResult.SILENCE,
+             'BYPASS': nt.ValidResult.ALLOW_BYPASS, 'None': None, 'True': True, 'False': False, '0': 0, '1': 1}
+LEGACY_VALUES = {'accept': True, 'reject': False, 'True': True, 'False': False, 'None': None, '0': 0, '1': 1,
+                 'empty': '', 'text': 'x'}
+
+
+def verdict_value(token, fe_name):
+    return (V2_VALUES if fe_name == 'v2' else LEGACY_VALUES)[token]
+
+
+def verdict_accepts(token, fe_name):
+    """the statement: v2 accepts exactly PASS and ALLOW_BYPASS; the legacy front-end accepts by truthiness"""
+    if fe_name == 'v2':
+        return token in ('accept', 'PASS', 'BYPASS')
+    return bool(LEGACY_VALUES[token])
+
+
 def script_valid(seq):
     # nothing is delivered or expressed... after shutdown except clock ticks; cancel only after its express fired
     if 's' in seq[:-1] and seq[-1] != 't':
@@ -179,6 +197,7 @@ class PitScenario:
         self.outcomes = {}
         self.n_done = {}
         self.expressed_ok = 0
+        self.fail_results = {}
 
     def close(self):
         self.env.__exit__(None, None, None)
@@ -201,21 +220,21 @@ class PitScenario:
     def _validator(self, i):
         it = self.b.interests[i % 100]
         trace, loop = self.trace, self.loop
-        ok = it['verdict'] == 'accept'
+        value = verdict_value(it['verdict'], self.fe.name)
 
         async def v2_validator(name, sig, ctx):
             trace.append(('vstart', i, loop.us))
             if it['vlat']:
                 await asyncio.sleep(it['vlat'] / 1000)
             trace.append(('vdone', i, loop.us))
-            return nt.ValidResult.PASS if ok else nt.ValidResult.FAIL
+            return value
 
         async def legacy_validator(name, sig):
             trace.append(('vstart', i, loop.us))
             if it['vlat']:
                 await asyncio.sleep(it['vlat'] / 1000)
             trace.append(('vdone', i, loop.us))
-            return ok
+            return value
         return v2_validator if self.fe.name == 'v2' else legacy_validator
 
     async def _caller(self, i):
@@ -236,6 +255,7 @@ class PitScenario:
             out = 'neterr'
         except nt.ValidationFailure as e:
             out = 'invalid:' + self.label_of(e.name, e.content)
+            self.fail_results[i] = e.result
         except BaseException as e:  # noqa
             out = exc_class(e)
             if out.startswith('error:'):
@@ -305,6 +325,7 @@ class PitScenario:
         obs['outcomes'] = {str(k): v for k, v in sorted(self.outcomes.items())}
         obs['undone'] = sorted(i for i, t in self.callers.items() if not t.done())
         obs['n_done'] = {str(k): v for k, v in self.n_done.items()}
+        obs['fail_results'] = {str(k): repr(v) for k, v in self.fail_results.items()}
         obs['task_failures'] = loop.task_failures(ignore=set(self.callers.values()))
         obs['handler'] = list(loop.handler_reports)
         obs['pending_tasks'] = len(loop.pending_tasks())
@@ -316,9 +337,12 @@ def judge(sname, fe_name, run):
     b = built(sname)
     obs = run.obs
     viol = []
-    interests = dict(b.interests)
-    for i in list(b.interests):
-        interests[100 + i] = b.interests[i]
+    interests = {}
+    for i, it in b.interests.items():
+        it = dict(it)
+        it['verdict'] = 'accept' if verdict_accepts(it['verdict'], fe_name) else 'reject'
+        interests[i] = it
+        interests[100 + i] = it
     acc, _first = acceptable_outcomes(run.trace, interests, b.ref_packets, legacy=(fe_name == 'legacy'))
     callers = {int(e[1][1:]) for e in run.trace if e[0] == 'fire' and isinstance(e[1], str)
                and e[1][0] == 'x' and e[1][1:].isdigit()}
